@@ -141,8 +141,18 @@ def finish(pid, tier, seed, level, acc, rule, t0, assumptions=None, extra=None, 
         print("KNOWN-FINDING: property=%s %s [%s]" % (pid, k.get("what", v["what"]), sig))
 
     status = 0
+    rdir = os.path.join(VERIF, "replays", pid)
+    if os.path.isdir(rdir):
+        for fn in os.listdir(rdir):
+            if fn.startswith("%s-%s-" % (tier, seed)):
+                os.unlink(os.path.join(rdir, fn))
+    os.makedirs(os.path.join(VERIF, "work"), exist_ok=True)
+    with open(os.path.join(VERIF, "work", "%s-signatures.json" % pid), "w") as f:
+        allsigs = {}
+        for v in acc.violations:
+            allsigs.setdefault(v["sig"], v["what"])
+        json.dump(allsigs, f, indent=1, ensure_ascii=False)
     if new or overflow > 0:
-        rdir = os.path.join(VERIF, "replays", pid)
         os.makedirs(rdir, exist_ok=True)
         seen_sigs = set()
         n_out = 0
